@@ -149,6 +149,23 @@ def sc_validation(name, lines, rc, packages=None, soll=True, describe="", entry=
         for g in deep.lines:
             if statuses.get(g.discriminator) != "IS_FORBIDDEN":
                 walk(g, statuses[g.discriminator])
+        # no element's result may talk about another element's input
+        inputs = {}
+
+        def collect(g):
+            for sg in (g.segment_groups or []):
+                collect(sg)
+            for s_ in (g.segments or []):
+                for e in s_.data_elements:
+                    if isinstance(e, DataElementFreeText) and e.entered_input and len(e.entered_input) >= 8:
+                        inputs[e.discriminator] = e.entered_input
+        for g in deep.lines:
+            collect(g)
+        for disc, row in full.items():
+            msg = row[3] or ""
+            for other, text in inputs.items():
+                if other != disc and text in msg and inputs.get(disc) != text:
+                    problems.append((disc, f"error message quotes the input of {other}: {msg!r}", row))
         return problems
 
     sc.alone_checks = alone_checks
@@ -161,6 +178,12 @@ def scenarios(thorough):
                       {1: "F", 2: "F", 3: "F"}, describe="one segment, two free-text elements with the same format constraint key and different inputs"),
         sc_validation("segempty", [G_("g1", "Muss", [S_("s1", "Muss", [F_("e1", "Muss [1][901]", "a1"), F_("e2", "Muss [2][901]", None), F_("e3", "Muss [3][901]", "")])])],
                       {1: "F", 2: "F", 3: "F"}, describe="a filled element followed by elements without input (None / empty string) that carry the same format constraint"),
+        sc_validation("seg3same", [G_("g1", "Muss", [S_("s1", "Muss", [F_("e1", "Muss [1][901]", "a1"), F_("e2", "Muss [2][901]", "b"), F_("e3", "Muss [3][901]", "a1")])])],
+                      {1: "F", 2: "F", 3: "F"}, describe="three elements with the same format constraint key, two of them with the same input"),
+        sc_validation("datetime", [G_("g1", "Muss", [S_("s1", "Muss", [F_("e1", "Muss [1][932]", "2022-06-01T10:00:00+00:00"),
+                                                                  F_("e2", "Muss [2][932]", "2022-06-01T12:00:00+02:00"),
+                                                                  F_("e3", "Muss [3][UB1]", "2022-05-31T22:00:00Z")])])],
+                      {1: "F", 2: "F", 3: "F"}, describe="shipped date-time constraints on the same instant written with different offsets"),
         sc_validation("segdirect", [G_("g1", "Muss", [S_("s1", "Muss [1]", [F_("e1", "Muss [2][907]", "k7"), F_("e2", "Soll [3][907] Kann [4]", "m")])])],
                       {1: "F", 2: "F", 3: "F", 4: "F"}, entry="segment", describe="validate_segment called directly: two elements, same key 907, inputs k7 / m"),
         sc_validation("seg11", [G_("g1", "X", [S_("s1", "Muss [1]", [F_("e1", "Muss [2][902] Kann [3][903]", "x2")]),
